@@ -144,7 +144,7 @@ def converter_histories(total, tier):
     for c in c11.CUR:
         Money.register_currency(c)
     ok = [('none', 'usd11'), ('none', 'jpy'), ('y2020', 'usd12'),
-          ('m03', 'both'), ('d15', 'usdstr')]
+          ('m03', 'both'), ('d15', 'usdstr'), ('none', 'big')]
     bad = [('none', 'ok+bad'), ('none', 'bad+ok'), ('bad13', 'usd11'),
            ('badx', 'jpy'), ('y2020', 'base'), ('d15', 'ok+bad'),
            ('badf', 'both'), ('m03', 'bad+ok')]
